@@ -1138,6 +1138,9 @@ func (dc *driverContextInsertion) transition(driver stateTableDriver, entry tabl
 		if int(start)+count > len(dc.insertionAction) { // the glyph list is empty for a NULL offset
 			return
 		}
+		if len(buffer.outInfo)+len(buffer.Info)-buffer.idx+count > buffer.maxLen { // the output would be too long
+			return
+		}
 		glyphs := dc.insertionAction[start:]
 
 		before := flags&miMarkedInsertBefore != 0
@@ -1173,6 +1176,9 @@ func (dc *driverContextInsertion) transition(driver stateTableDriver, entry tabl
 		buffer.maxOps -= count
 		start := currentInsertIndex
 		if int(start)+count > len(dc.insertionAction) { // the glyph list is empty for a NULL offset
+			return
+		}
+		if len(buffer.outInfo)+len(buffer.Info)-buffer.idx+count > buffer.maxLen { // the output would be too long
 			return
 		}
 		glyphs := dc.insertionAction[start:]
